@@ -660,6 +660,9 @@ def replay_behaviour(sc, steps, seed=0, stop_on=None):
                 compare_step(w, a, dd, tgt, out, sender, ctx, dh_before)
             except wd.Escape as ex:
                 raise Mismatch('escape', str(ex), observed={'entry': ex.entry, 'exception': type(ex.ex).__name__, 'site': ex.site})
+            except W.WireError as ex:
+                # a datagram of the implementation that the independent codec / primitives cannot open under the SA's own keys
+                raise Mismatch('seal', f'a datagram emitted in this step is not a well-formed (protected) message under the keys of its IKE_SA: {ex}')
             done += 1
     except Mismatch as mm:
         return done, mm, w
@@ -710,9 +713,9 @@ def fault_replay(sc, steps, refuse_at, err=17, seed=0):
                 note_gens(w, a, tgt)
                 if out is not None:
                     w.note_emitted(sender, out, ctx)
-            except Mismatch:
+            except (Mismatch, W.WireError) as ex:
                 if state['hit'] is None:
-                    raise
+                    raise ex if isinstance(ex, Mismatch) else Mismatch('seal', str(ex))
                 break                       # diverged after the fault: the datagram the spec wants does not exist
             except wd.Escape as ex:
                 return done, {'kind': 'escape', 'what': str(ex), 'refused': state['hit']}, state['hit']
